@@ -6,3 +6,6 @@
         res is Pending ==> will_be_polled_again(final(ctx)),
         // and the stream never ends (None would stop the RTR server)
         !(res matches Poll::Ready(None)),
+        // nor does it ever yield an error item: rpki's Server::run does `sock?` on every item, so one
+        // Err item (for a connection whose setup failed, or a failed accept) ends the accept loop for good
+        !(res matches Poll::Ready(Some(Err(_)))),
